@@ -113,18 +113,21 @@ def _attribute(asm, msg, spans, rendered):
     clause = None
     fn_body = None
     where = None
+    any_fn = None
     for sp in prim + [s for s in spans if s not in prim]:
         ln = sp.get("line_start", 1) - 1
         if ln < 0 or ln >= len(asm.origin):
             continue
         o = asm.origin[ln]
+        if o.fn and any_fn is None:
+            any_fn = o
         if o.kind in ("ensures", "invariant", "requires") and o.label and clause is None:
             clause = o
         if o.kind in ("body", "hint", "sig") and o.fn and fn_body is None:
             fn_body = o
             where = o.src or ("unit line %d" % (ln + 1))
     # function under verification: the one whose body contains a span; else the clause's owner
-    fn = fn_body.fn if fn_body else (clause.fn if clause else None)
+    fn = fn_body.fn if fn_body else (clause.fn if clause else (any_fn.fn if any_fn else None))
     if fn is None:
         # failure inside template text (a lemma or hand-written glue)
         ln = (prim[0].get("line_start", 1) - 1) if prim else 0
